@@ -269,10 +269,10 @@ Example rewrite_isolated_example :
 Proof.
   cbv zeta. split; [reflexivity|]. split; [reflexivity|]. split; [reflexivity|].
   split; [vm_compute; repeat constructor; simpl; intuition discriminate|].
-  split; [intros r' [<-|[<-|[]]]; vm_compute; split; [discriminate|reflexivity]|].
+  split; [intros r' [<-|[<-|[]]]; vm_compute; (split; [discriminate|reflexivity])|].
   split; [intros f Hf; vm_compute in Hf;
           repeat (destruct Hf as [<-|Hf]; [reflexivity|]); destruct Hf|].
-  split; [intros q [<-|[]]; split; [reflexivity|];
+  split; [intros q [<-|[]]; (split; [reflexivity|]);
           intros r' [<-|[<-|[]]] Hd; discriminate Hd|].
   split; [intros c q Hc Hq; vm_compute in Hc;
           repeat (destruct Hc as [<-|Hc]; [vm_compute in Hq; destruct Hq|]); destruct Hc|].
@@ -329,7 +329,7 @@ Example fresh_names_stratum_distinct_example :
   length (fresh_ids true true 0 rs) = 4%nat.
 Proof.
   cbv zeta. split; [|reflexivity].
-  intros r Hr. repeat (destruct Hr as [<-|Hr]; [vm_compute; intros [H1 H2]; apply H1; reflexivity|]). destruct Hr.
+  intros r Hr. repeat (destruct Hr as [<-|Hr]; [vm_compute; intros [H1 H2]; apply H2; reflexivity|]). destruct Hr.
 Qed.
 
 (* names generated for ONE head symbol (any symbol, also one ending in a digit) with
